@@ -7,7 +7,7 @@ import (
 )
 
 func init() {
-	registerExtractor("muxbroker", []string{"GoPlugin.Model.MuxBroker"}, extractMuxBroker)
+	registerExtractor("muxbroker", []string{"GoPlugin.Model.MuxBroker", "GoPlugin.Model.MuxFrame"}, extractMuxBroker)
 }
 
 // selectInfo describes one select statement.
@@ -234,6 +234,53 @@ func extractMuxBroker(p *pkgs, f *facts) {
 		leanBool(hasDefault), leanBool(drainsAlways), leanBool(runCloses), leanBool(hdrContinues), max64(cap, 0), acceptWin, expiryWin))
 	f.set("muxBroker", map[string]interface{}{"expiryRecvHasDefault": hasDefault, "expiryDrainsAlways": drainsAlways,
 		"runClosesDropped": runCloses, "headerErrorContinues": hdrContinues, "slotCap": cap, "acceptWindowMs": acceptWin, "expiryWindowMs": expiryWin})
+	// ---- byte-level facts (Model/MuxFrame.lean)
+	// the 4-byte header/ack is read with binary.Read directly on the stream identifier that is then handed on
+	exact := true
+	for _, spec := range []struct{ fn, how string }{{"Dial", "return"}, {"Run", "send"}} {
+		fn := p.fn("MuxBroker", spec.fn)
+		if fn == nil {
+			exact = false
+			continue
+		}
+		v := ""
+		ast.Inspect(fn.Body, func(n ast.Node) bool {
+			if ce, ok := n.(*ast.CallExpr); ok && exprString(ce.Fun) == "binary.Read" && len(ce.Args) == 3 {
+				if id, ok := ce.Args[0].(*ast.Ident); ok {
+					v = id.Name
+				}
+			}
+			return true
+		})
+		handed := false
+		ast.Inspect(fn.Body, func(n ast.Node) bool {
+			switch x := n.(type) {
+			case *ast.ReturnStmt:
+				if spec.how == "return" && len(x.Results) == 2 && exprString(x.Results[0]) == v && exprString(x.Results[1]) == "nil" {
+					handed = true
+				}
+			case *ast.SendStmt:
+				if spec.how == "send" && exprString(x.Value) == v {
+					handed = true
+				}
+			}
+			return true
+		})
+		if v == "" || !handed || strings.Contains(nodeCalls(fn.Body), "bufio.") {
+			exact = false
+		}
+	}
+	noDeadline := true
+	for _, name := range []string{"Accept", "Dial", "Run", "AcceptAndServe", "timeoutWait"} {
+		if fn := p.fn("MuxBroker", name); fn != nil {
+			c := nodeCalls(fn.Body)
+			if strings.Contains(c, "SetDeadline(") || strings.Contains(c, "SetWriteDeadline(") || strings.Contains(c, "SetReadDeadline(") {
+				noDeadline = false
+			}
+		}
+	}
+	f.lean = append(f.lean, fmt.Sprintf("def muxFrame : MuxFrame.Params := ⟨%s, %s⟩", leanBool(exact), leanBool(noDeadline)))
+	f.set("muxFrame", map[string]interface{}{"headerReadExact": exact, "noDeadlineLeft": noDeadline})
 }
 
 func max64(a, b int64) int64 {
